@@ -1,6 +1,7 @@
 package checks
 
 import (
+	"errors"
 	"fmt"
 	"strconv"
 
@@ -32,6 +33,21 @@ func c12Body(r *simcore.Run) {
 	nSess := 2 + r.Intn(3)
 	per := 2 + r.Intn(8)
 	violations := 0
+	// every INSERT into g carries a value of a that is used once: the rows of g at the end
+	// are exactly the successful committed INSERTs (a plain INSERT never replaces a row)
+	gSeq := 0
+	gCommitted := map[string]string{}
+	gOf := func(q string) string {
+		var a int
+		if n, _ := fmt.Sscanf(q, "INSERT INTO g (a) VALUES (%d)", &a); n == 1 {
+			return strconv.Itoa(a)
+		}
+		var id int
+		if n, _ := fmt.Sscanf(q, "INSERT INTO g (id, a) VALUES (%d, %d)", &id, &a); n == 2 {
+			return strconv.Itoa(a)
+		}
+		return ""
+	}
 	genStmt := func() string {
 		id := r.Intn(6)
 		a := strconv.Itoa(r.Intn(6))
@@ -40,7 +56,12 @@ func c12Body(r *simcore.Run) {
 		}
 		b := []string{"'x'", "'yy'", "'zzzzzz'", "'toolongvalue'", "NULL"}[r.Intn(5)]
 		c := []string{"0", "5", "-1", "NULL"}[r.Intn(4)]
-		switch r.Intn(14) {
+		switch r.Intn(15) {
+		case 14:
+			// a key given explicitly for the AUTO_INCREMENT column: accepted when it is greater than
+			// every key of the table, or names an existing row (then the INSERT is a duplicate)
+			gSeq++
+			return fmt.Sprintf("INSERT INTO g (id, a) VALUES (%d, %d)", 1+r.Intn(10), 1000+gSeq)
 		case 10:
 			return fmt.Sprintf("INSERT INTO u (id, p, q) VALUES (%d, %d, %d)", id, r.Intn(3), r.Intn(2))
 		case 11:
@@ -65,7 +86,8 @@ func c12Body(r *simcore.Run) {
 		case 8:
 			return fmt.Sprintf("DELETE FROM t WHERE id = %d", id)
 		default:
-			return fmt.Sprintf("INSERT INTO g (a) VALUES (%d)", r.Intn(100))
+			gSeq++
+			return fmt.Sprintf("INSERT INTO g (a) VALUES (%d)", 1000+gSeq)
 		}
 	}
 	genKeys := map[string]bool{}
@@ -82,12 +104,16 @@ func c12Body(r *simcore.Run) {
 						continue
 					}
 					failed := false
-					for k := 0; k < 1+r.Intn(3) && !failed; k++ {
+					var gPending []string
+					for k := 0; k < 1+r.Intn(4) && !failed; k++ {
 						q := genStmt()
 						ntx, _, err := s.exec(tx, q)
 						r.Logf("%s: [tx] %s -> %v", name, q, err)
+						if err == nil && gOf(q) != "" {
+							gPending = append(gPending, gOf(q))
+						}
 						if err != nil {
-							if !isConstraintErr(err) && !isBenignTxErr(err) {
+							if !isConstraintErr(err) && !isBenignTxErr(err) && !errors.Is(err, sql.ErrInvalidValue) {
 								if !tx.Closed() {
 									tx.Cancel()
 								}
@@ -113,8 +139,17 @@ func c12Body(r *simcore.Run) {
 					if tx.Closed() {
 						continue
 					}
-					if err := tx.Commit(r.Ctx()); err != nil && !isBenignTxErr(err) && !isConstraintErr(err) {
+					err = tx.Commit(r.Ctx())
+					if err != nil && !isBenignTxErr(err) && !isConstraintErr(err) {
 						r.Violation("commit-error", "", "COMMIT failed: %v", err)
+					}
+					if err == nil {
+						for _, a := range gPending {
+							gCommitted[a] = name + " (transaction)"
+						}
+						if len(gPending) > 1 {
+							r.Probe("c12-several-inserts-into-g-in-one-tx")
+						}
 					}
 					continue
 				}
@@ -125,10 +160,13 @@ func c12Body(r *simcore.Run) {
 					if isConstraintErr(err) {
 						violations++
 						r.Probe("c12-constraint-refused")
-					} else if !isBenignTxErr(err) {
+					} else if !isBenignTxErr(err) && !errors.Is(err, sql.ErrInvalidValue) {
 						r.Violation("stmt-error", "", "%q failed: %v", q, err)
 					}
 					continue
+				}
+				if a := gOf(q); a != "" {
+					gCommitted[a] = name
 				}
 				if ntx != nil {
 					for tbl, pk := range ntx.LastInsertedPKs() {
@@ -186,9 +224,29 @@ func c12Body(r *simcore.Run) {
 		t.Join()
 	}
 	c12Invariants(s, "after the workload")
+	c12GRows := func(what string) {
+		rows, err := s.query(nil, "SELECT id, a FROM g")
+		if err != nil {
+			r.Violation("scan-error", "", "%s: scanning g failed: %v", what, err)
+		}
+		held := map[string]bool{}
+		for _, row := range rows {
+			held[row[1]] = true
+			if _, ok := gCommitted[row[1]]; !ok {
+				r.Violation("uncommitted-row", "", "%s: g holds row (id=%s, a=%s) but no INSERT with that value was committed: %v", what, row[0], row[1], rows)
+			}
+		}
+		for _, a := range sortedCopy(mapKeys(gCommitted)) {
+			if !held[a] {
+				r.Violation("insert-lost", "", "%s: the INSERT into g with a=%s succeeded and was committed by %s, but g holds no such row (a later INSERT took its key?): %v", what, a, gCommitted[a], rows)
+			}
+		}
+	}
+	c12GRows("after the workload")
 	if r.Pct(40) {
 		s.reopen()
 		c12Invariants(s, "after restart")
+		c12GRows("after restart")
 	}
 	s.se.st.Close()
 	r.Sig("c12", nSess, per, violations > 0, lateIndex)
